@@ -1,5 +1,6 @@
 import itertools
 import math
+import operator
 
 from tlz.itertoolz import concat
 
@@ -49,6 +50,8 @@ def read_file_descriptor(f):
 
 
 def read_metadata(f, records_per_chunk=1024):
+    # numpy integers would otherwise leak into the record offsets (and break `to_dict`)
+    records_per_chunk = operator.index(records_per_chunk)
     header = read_file_descriptor(f)
 
     n_records = header["number_of_sar_data_records"]
